@@ -1,4 +1,4 @@
-"""C15 — task queue: Lean protocol model `TQ.next`/`TQ.Step` (Model/TaskQueue.lean), theorems Props/C15.lean, driver
+"""C15 — task queue: Lean threaded model `TQW.tnext`/`TQW.TStep` over the protocol `TQ.Step` (Model/TaskQueue.lean), theorems Props/C15.lean, driver
 drv_c15, harness go/cmd/c15 (white-box option `taskqueue.VerifInCap` injected with -overlay).
 
 Two streams:
@@ -162,9 +162,13 @@ def _tag(line, out):
 
 def run(ctx):
     ctx.modelled += [
-        "the protocol model abstracts the Go runtime: channel operations are atomic steps, goroutine scheduling is "
-        "arbitrary interleaving (no fairness); which worker takes a task is not distinguished (workers are counted); "
-        "`Submit(nil)` and `Submit` after `Shutdown` are outside the domain",
+        "the model (TQW.TStep, run by the driver as TQW.tnext) abstracts the Go runtime: channel operations are atomic steps, "
+        "goroutine scheduling is arbitrary interleaving (no fairness); the dispatcher and each of the `workers` worker "
+        "goroutines are threads of their own, a panic unwinds to the deferred errs.Recovery of runTask, the handler call "
+        "is a step of its own; the driver explores all interleavings up to the symmetry of the worker threads",
+        "forced schedules print the start and finish ORDER for one-worker queues (fifo_single_worker is confronted with "
+        "the code); for more workers the sets are compared (the order of starts on different threads is not pinned by "
+        "a forced schedule) and one-worker order under random schedules is judged by the stress oracle",
         "forced schedules: the harness polls for the model's predicted quiescent observable (deadline 3 s; after 3 missed "
         "deadlines the rest of the stream is not run, the lines are counted in forced_lines_not_run_after_crash_or_hang) and then "
         "watches a grace period; an event later than the grace period is seen on the following line of the history "
@@ -180,9 +184,14 @@ def run(ctx):
         "queue; Workers < 1 (default pool) is run but the bound running <= Workers is then not judged",
     ]
     ctx.assumptions += [
-        "running tasks eventually finish and the Go scheduler does not stop while a goroutine can move (the liveness "
-        "theorem C15.shutdown_returns needs nothing else: no fairness)",
-        "Submit is not called with nil and not called after (or concurrently with) Shutdown",
+        "tasks end, by returning or by panicking (the liveness theorem C15.shutdown_returns needs nothing else: no "
+        "fairness); a task that calls runtime.Goexit ends its worker goroutine without a completion signal, Shutdown "
+        "then never returns (transcribed in coverage.observations): outside the domain",
+        "Submit is not called with nil, nor after or concurrently with Shutdown (a Submit that is blocked on a full `in` "
+        "channel when Shutdown closes it panics with 'send on closed channel' by construction): outside the domain",
+        "tasks do not call Submit on the queue that runs them: modelled (TQW.Variant.nest); the safety theorems hold for "
+        "such tasks, the liveness theorems do not (C15.contrast_reentrant_bounded_deadlock / _unbounded_deadlock; real "
+        "code: Workers(1), Depth(d >= 0), one task submitting 2*NumCPU+3+d tasks blocks for ever in its last Submit)",
         "workers >= 1 (New replaces smaller values by 1+NumCPU); in-channel capacity >= 1",
     ]
     import os, time
@@ -201,9 +210,10 @@ def run(ctx):
     what = ("forced schedule: each line is followed by a wait for quiescence; outputs are the observed sets (st=started, "
             "fin=finished, rec=recovery-handler calls, sub=Submit calls returned, sd=Shutdown 0 not called/1 waiting/2 "
             "returned; `id*k` = seen k times); `crash:*` = the harness process died on that line")
-    thm = ("C15.conservation / exactly_once / running_le_workers / fifo / shutdown_after_all_done / panic_reported_once "
-           "/ shutdown_returns (Props/C15.lean) hold for every reachable state of the model; on this forced schedule the "
-           "real queue does not reach the quiescent state the model predicts")
+    thm = ("C15.conservation / exactly_once / running_le_workers / fifo / fifo_single_worker / no_worker_dies / "
+           "panic_reported_once / shutdown_after_all_done / shutdown_returns (Props/C15.lean) hold for every reachable "
+           "state of the threaded model; on this forced schedule the real queue does not reach the quiescent state "
+           "(for one worker: including the start and finish order) that the model predicts")
     ctx.diff(area="forced", driver="drv_c15", n={"quick": 6000, "thorough": 200000}, stateful=True,
              trivial=_trivial, tagger=_tag, timeout=1500, theorem=thm, what=what)
     mark("forced")
